@@ -17,6 +17,7 @@ import (
 	"go.brendoncarroll.net/p2p/s/memswarm"
 	"go.brendoncarroll.net/p2p/s/multiswarm"
 	"go.brendoncarroll.net/p2p/s/p2pkeswarm"
+	"go.brendoncarroll.net/p2p/s/udpswarm"
 	"go.brendoncarroll.net/p2p/s/wlswarm"
 )
 
@@ -64,8 +65,8 @@ func text(a p2p.Addr) string {
 	return string(b)
 }
 
-// wrapSwarms builds the facade for swarms whose i-th element has address addrs[i].
-func wrapSwarms[A p2p.Addr](swarms []p2p.Swarm[A], addrs []A) []*Node {
+// WrapSwarms builds the facade for swarms whose i-th element has address addrs[i].
+func WrapSwarms[A p2p.Addr](swarms []p2p.Swarm[A], addrs []A) []*Node {
 	index := map[string]int{}
 	for i, a := range addrs {
 		index[text(a)] = i
@@ -143,7 +144,7 @@ type Config struct {
 	Workers  int    // mbapp workers
 }
 
-var Kinds = []string{"mem", "frag", "mbapp", "mux-string", "mux-varint", "mux-uint16", "mux-uint32", "mux-uint64", "multi", "map", "wl", "p2pke", "frag-p2pke", "mux-frag", "mbapp-mux", "multi-p2pke", "multi-ask"}
+var Kinds = []string{"mem", "frag", "mbapp", "mux-string", "mux-varint", "mux-uint16", "mux-uint32", "mux-uint64", "multi", "map", "wl", "p2pke", "frag-p2pke", "mux-frag", "mbapp-mux", "multi-p2pke", "multi-ask", "udp", "p2pke-udp"}
 
 func memOpts(c Config) []memswarm.Option {
 	var opts []memswarm.Option
@@ -196,7 +197,7 @@ func Build(c Config) *Stack {
 			s := r.NewSwarm()
 			sw[i], addrs[i] = s, s.LocalAddr()
 		}
-		st.Nodes, st.HasAsk = wrapSwarms(sw, addrs), true
+		st.Nodes, st.HasAsk = WrapSwarms(sw, addrs), true
 	case "frag":
 		r := memswarm.NewRealm(memOpts(c)...)
 		sw := make([]p2p.Swarm[memswarm.Addr], n)
@@ -205,7 +206,7 @@ func Build(c Config) *Stack {
 			s := r.NewSwarm()
 			sw[i], addrs[i] = fragswarm.New[memswarm.Addr](s, c.MTU), s.LocalAddr()
 		}
-		st.Nodes = wrapSwarms(sw, addrs)
+		st.Nodes = WrapSwarms(sw, addrs)
 		st.PartSize = innerMTU(c) - fragswarm.Overhead
 		st.Raw = rawNode(r.NewSwarm(), addrs)
 	case "mbapp":
@@ -220,7 +221,7 @@ func Build(c Config) *Stack {
 			s := r.NewSwarm(fmt.Sprintf("key%d", i))
 			sw[i], addrs[i] = mbapp.New[memswarm.Addr, string](s, c.MTU, mbapp.WithNumWorkers(w)), s.LocalAddr()
 		}
-		st.Nodes, st.HasAsk = wrapSwarms(sw, addrs), true
+		st.Nodes, st.HasAsk = WrapSwarms(sw, addrs), true
 		st.PartSize = innerMTU(c) - mbapp.HeaderSize
 		st.Raw = rawNode(r.NewSwarm("rawkey"), addrs)
 	case "mux-string", "mux-varint", "mux-uint16", "mux-uint32", "mux-uint64":
@@ -250,8 +251,8 @@ func Build(c Config) *Stack {
 				sw[i], other[i] = m.Open(1<<63), m.Open(0)
 			}
 		}
-		st.Nodes, st.HasAsk = wrapSwarms(sw, addrs), true
-		st.Extra["other"] = wrapSwarms(other, addrs)
+		st.Nodes, st.HasAsk = WrapSwarms(sw, addrs), true
+		st.Extra["other"] = WrapSwarms(other, addrs)
 		rawSw := r.NewSwarm()
 		st.Raw = rawNode(rawSw, addrs)
 		st.Raw.Ask = func(ctx context.Context, resp []byte, dst int, v p2p.IOVec) (int, error) {
@@ -272,7 +273,7 @@ func Build(c Config) *Stack {
 				addrs[i] = multiswarm.Addr{Scheme: "b", Addr: b.LocalAddr()}
 			}
 		}
-		st.Nodes = wrapSwarms(sw, addrs)
+		st.Nodes = WrapSwarms(sw, addrs)
 	case "map":
 		r := memswarm.NewRealm(memOpts(c)...)
 		sw := make([]p2p.Swarm[upAddr], n)
@@ -285,7 +286,7 @@ func Build(c Config) *Stack {
 			})
 			addrs[i] = upAddr{s.LocalAddr()}
 		}
-		st.Nodes = wrapSwarms(sw, addrs)
+		st.Nodes = WrapSwarms(sw, addrs)
 	case "wl":
 		r := memswarm.NewSecureRealm[string](memOpts(c)...)
 		sw := make([]p2p.Swarm[memswarm.Addr], n)
@@ -295,7 +296,7 @@ func Build(c Config) *Stack {
 			addrs[i] = s.LocalAddr()
 			sw[i] = wlswarm.WrapSecureAsk[memswarm.Addr, string](s, func(a memswarm.Addr) bool { return a.N != 99 })
 		}
-		st.Nodes, st.HasAsk = wrapSwarms(sw, addrs), true
+		st.Nodes, st.HasAsk = WrapSwarms(sw, addrs), true
 	case "p2pke":
 		r := memswarm.NewRealm(memOpts(c)...)
 		sw := make([]p2p.Swarm[p2pkeswarm.Addr[memswarm.Addr]], n)
@@ -305,12 +306,36 @@ func Build(c Config) *Stack {
 			ks := p2pkeswarm.New[memswarm.Addr](s, TestKey(i))
 			sw[i], addrs[i] = ks, ks.LocalAddrs()[0]
 		}
-		st.Nodes = wrapSwarms(sw, addrs)
+		st.Nodes = WrapSwarms(sw, addrs)
 		inner := make([]memswarm.Addr, n)
 		for i := range inner {
 			inner[i] = addrs[i].Addr
 		}
 		st.Raw = rawNode(r.NewSwarm(), inner)
+	case "udp":
+		// the real udpswarm over the virtual network (package net is shimmed by vnet)
+		sw := make([]p2p.Swarm[udpswarm.Addr], n)
+		addrs := make([]udpswarm.Addr, n)
+		for i := range sw {
+			s, err := udpswarm.New("127.0.0.1:0")
+			if err != nil {
+				panic(err)
+			}
+			sw[i], addrs[i] = s, s.LocalAddrs()[0]
+		}
+		st.Nodes = WrapSwarms(sw, addrs)
+	case "p2pke-udp":
+		sw := make([]p2p.Swarm[p2pkeswarm.Addr[udpswarm.Addr]], n)
+		addrs := make([]p2pkeswarm.Addr[udpswarm.Addr], n)
+		for i := range sw {
+			s, err := udpswarm.New("127.0.0.1:0")
+			if err != nil {
+				panic(err)
+			}
+			ks := p2pkeswarm.New[udpswarm.Addr](s, TestKey(i))
+			sw[i], addrs[i] = ks, ks.LocalAddrs()[0]
+		}
+		st.Nodes = WrapSwarms(sw, addrs)
 	case "frag-p2pke":
 		r := memswarm.NewRealm(memOpts(c)...)
 		sw := make([]p2p.Swarm[p2pkeswarm.Addr[memswarm.Addr]], n)
@@ -320,7 +345,7 @@ func Build(c Config) *Stack {
 			ks := p2pkeswarm.New[memswarm.Addr](s, TestKey(i))
 			sw[i], addrs[i] = fragswarm.New[p2pkeswarm.Addr[memswarm.Addr]](ks, c.MTU), ks.LocalAddrs()[0]
 		}
-		st.Nodes = wrapSwarms(sw, addrs)
+		st.Nodes = WrapSwarms(sw, addrs)
 		st.PartSize = innerMTU(c) - p2pkeswarm.Overhead - fragswarm.Overhead
 	case "mux-frag":
 		r := memswarm.NewRealm(memOpts(c)...)
@@ -333,7 +358,7 @@ func Build(c Config) *Stack {
 			st.Underlying = append(st.Underlying, f.Close)
 			sw[i] = p2pmux.NewStringMux[memswarm.Addr](f).Open("x")
 		}
-		st.Nodes = wrapSwarms(sw, addrs)
+		st.Nodes = WrapSwarms(sw, addrs)
 		st.PartSize = innerMTU(c) - fragswarm.Overhead
 	case "mbapp-mux":
 		r := memswarm.NewSecureRealm[string](memOpts(c)...)
@@ -346,7 +371,7 @@ func Build(c Config) *Stack {
 			m := p2pmux.NewStringSecureMux[memswarm.Addr, string](s).Open("mb")
 			sw[i] = mbapp.New[memswarm.Addr, string](m, c.MTU, mbapp.WithNumWorkers(1))
 		}
-		st.Nodes, st.HasAsk = wrapSwarms(sw, addrs), true
+		st.Nodes, st.HasAsk = WrapSwarms(sw, addrs), true
 	case "multi-p2pke":
 		r := memswarm.NewRealm(memOpts(c)...)
 		sw := make([]p2p.Swarm[multiswarm.Addr], n)
@@ -357,7 +382,7 @@ func Build(c Config) *Stack {
 			sw[i] = multiswarm.NewSecure[x509.PublicKey](map[string]multiswarm.DynSecureSwarm[x509.PublicKey]{"ke": multiswarm.WrapSecureSwarm[p2pkeswarm.Addr[memswarm.Addr], x509.PublicKey](ks)})
 			addrs[i] = multiswarm.Addr{Scheme: "ke", Addr: ks.LocalAddrs()[0]}
 		}
-		st.Nodes = wrapSwarms(sw, addrs)
+		st.Nodes = WrapSwarms(sw, addrs)
 	case "multi-ask":
 		r := memswarm.NewSecureRealm[string](memOpts(c)...)
 		sw := make([]p2p.Swarm[multiswarm.Addr], n)
@@ -367,7 +392,7 @@ func Build(c Config) *Stack {
 			sw[i] = multiswarm.NewSecureAsk[string](map[string]multiswarm.DynSecureAskSwarm[string]{"m": multiswarm.WrapSecureAskSwarm[memswarm.Addr, string](s)})
 			addrs[i] = multiswarm.Addr{Scheme: "m", Addr: s.LocalAddr()}
 		}
-		st.Nodes, st.HasAsk = wrapSwarms(sw, addrs), true
+		st.Nodes, st.HasAsk = WrapSwarms(sw, addrs), true
 	default:
 		panic("unknown stack kind " + c.Kind)
 	}
